@@ -1,5 +1,460 @@
-//! serde-lexpr operations (filled in below).
+//! serde-lexpr operations over a registry of concrete Rust types (real serde / serde_derive
+//! visitors), each described to the model by a `Ty` term.
+use crate::codec::*;
 use crate::rng::Rng;
-pub fn exec_serde(_t: &[&str]) -> String { "unimplemented".into() }
-pub fn generate(_family: &str, _r: &mut Rng, _count: usize, _emit: &mut dyn FnMut(String)) {}
-pub fn check(_t: &[&str], _res: &str, _m: &mut Vec<String>) {}
+use lexpr::Value;
+use serde_bytes::ByteBuf;
+use serde_derive::{Deserialize, Serialize};
+use std::collections::{BTreeMap, BTreeSet};
+use std::panic::{catch_unwind, AssertUnwindSafe};
+
+pub trait Canon: Sized + serde::Serialize + serde::de::DeserializeOwned {
+    fn ty(out: &mut Vec<String>);
+    fn gen(r: &mut Rng, depth: usize) -> Self;
+    fn enc(&self, out: &mut Vec<String>);
+    fn dec<'a, I: Iterator<Item = &'a str>>(it: &mut I) -> Self;
+}
+
+macro_rules! canon_int {
+    ($($t:ty, $name:expr, $big:ty);*) => {$(
+        impl Canon for $t {
+            fn ty(out: &mut Vec<String>) { out.push($name.into()); }
+            fn gen(r: &mut Rng, _d: usize) -> Self {
+                match r.below(5) {
+                    0 => <$t>::MIN, 1 => <$t>::MAX, 2 => 0 as $t, 3 => (r.next() % 200) as $t,
+                    _ => r.next() as $t,
+                }
+            }
+            fn enc(&self, out: &mut Vec<String>) { out.push(format!("I{}", self)); }
+            fn dec<'a, I: Iterator<Item = &'a str>>(it: &mut I) -> Self { it.next().unwrap()[1..].parse::<$big>().unwrap() as $t }
+        }
+    )*};
+}
+canon_int!(i8, "i8", i128; i16, "i16", i128; i32, "i32", i128; i64, "i64", i128; u8, "u8", i128; u16, "u16", i128; u32, "u32", i128; u64, "u64", i128);
+
+fn nice_f64(r: &mut Rng) -> f64 {
+    match r.below(6) {
+        0 => *r.pick(&[0.0, -0.0, 1.0, -1.5, 0.1, 1e21, 1e-7, 5e-324, 1.7976931348623157e308, 123456.789]),
+        1 => (r.below(100000) as f64) / 100.0,
+        2 => crate::gen::gen_f64(r),
+        _ => (r.next() % 1_000_000_000_000) as f64 * 10f64.powi(r.below(30) as i32 - 15),
+    }
+}
+
+impl Canon for f64 {
+    fn ty(out: &mut Vec<String>) { out.push("f64".into()); }
+    fn gen(r: &mut Rng, _d: usize) -> Self { let f = nice_f64(r); if f.is_nan() { 2.5 } else { f } }
+    fn enc(&self, out: &mut Vec<String>) { out.push(if self.is_nan() { "Dnan".into() } else { format!("D{:016x}", self.to_bits()) }); }
+    fn dec<'a, I: Iterator<Item = &'a str>>(it: &mut I) -> Self { f64::from_bits(u64::from_str_radix(&it.next().unwrap()[1..], 16).unwrap()) }
+}
+impl Canon for f32 {
+    fn ty(out: &mut Vec<String>) { out.push("f32".into()); }
+    fn gen(r: &mut Rng, _d: usize) -> Self { let f = nice_f64(r) as f32; if f.is_nan() { 2.5 } else { f } }
+    fn enc(&self, out: &mut Vec<String>) { out.push(if self.is_nan() { "Dnan".into() } else { format!("D{:016x}", f64::from(*self).to_bits()) }); }
+    fn dec<'a, I: Iterator<Item = &'a str>>(it: &mut I) -> Self { f64::from_bits(u64::from_str_radix(&it.next().unwrap()[1..], 16).unwrap()) as f32 }
+}
+impl Canon for bool {
+    fn ty(out: &mut Vec<String>) { out.push("bool".into()); }
+    fn gen(r: &mut Rng, _d: usize) -> Self { r.chance(1, 2) }
+    fn enc(&self, out: &mut Vec<String>) { out.push(if *self { "T".into() } else { "F".into() }); }
+    fn dec<'a, I: Iterator<Item = &'a str>>(it: &mut I) -> Self { it.next().unwrap() == "T" }
+}
+impl Canon for char {
+    fn ty(out: &mut Vec<String>) { out.push("char".into()); }
+    fn gen(r: &mut Rng, _d: usize) -> Self { crate::gen::gen_char(r) }
+    fn enc(&self, out: &mut Vec<String>) { out.push(format!("C{:x}", *self as u32)); }
+    fn dec<'a, I: Iterator<Item = &'a str>>(it: &mut I) -> Self { char::from_u32(u32::from_str_radix(&it.next().unwrap()[1..], 16).unwrap()).unwrap() }
+}
+impl Canon for String {
+    fn ty(out: &mut Vec<String>) { out.push("str".into()); }
+    fn gen(r: &mut Rng, _d: usize) -> Self { if r.chance(1, 3) { crate::gen::gen_name(r, true) } else { crate::gen::gen_string(r, 8) } }
+    fn enc(&self, out: &mut Vec<String>) { out.push(format!("S{}", hex(self.as_bytes()))); }
+    fn dec<'a, I: Iterator<Item = &'a str>>(it: &mut I) -> Self { String::from_utf8(unhex(&it.next().unwrap()[1..])).unwrap() }
+}
+impl Canon for ByteBuf {
+    fn ty(out: &mut Vec<String>) { out.push("bytes".into()); }
+    fn gen(r: &mut Rng, _d: usize) -> Self { ByteBuf::from((0..r.below(6)).map(|_| r.below(256) as u8).collect::<Vec<u8>>()) }
+    fn enc(&self, out: &mut Vec<String>) { out.push(format!("B{}", hex(self))); }
+    fn dec<'a, I: Iterator<Item = &'a str>>(it: &mut I) -> Self { ByteBuf::from(unhex(&it.next().unwrap()[1..])) }
+}
+impl Canon for () {
+    fn ty(out: &mut Vec<String>) { out.push("unit".into()); }
+    fn gen(_r: &mut Rng, _d: usize) -> Self {}
+    fn enc(&self, out: &mut Vec<String>) { out.push("U".into()); }
+    fn dec<'a, I: Iterator<Item = &'a str>>(it: &mut I) -> Self { it.next(); }
+}
+impl<T: Canon> Canon for Option<T> {
+    fn ty(out: &mut Vec<String>) { out.push("opt".into()); T::ty(out); }
+    fn gen(r: &mut Rng, d: usize) -> Self { if r.chance(1, 3) { None } else { Some(T::gen(r, d)) } }
+    fn enc(&self, out: &mut Vec<String>) { match self { None => out.push("N".into()), Some(x) => { out.push("J".into()); x.enc(out); } } }
+    fn dec<'a, I: Iterator<Item = &'a str>>(it: &mut I) -> Self { if it.next().unwrap() == "N" { None } else { Some(T::dec(it)) } }
+}
+fn gen_len(r: &mut Rng, d: usize) -> usize { if d == 0 { 0 } else { match r.below(6) { 0 => 0, 1 => 1, _ => r.below(5) } } }
+impl<T: Canon> Canon for Vec<T> {
+    fn ty(out: &mut Vec<String>) { out.push("seq".into()); T::ty(out); }
+    fn gen(r: &mut Rng, d: usize) -> Self { let n = gen_len(r, d); (0..n).map(|_| T::gen(r, d.saturating_sub(1))).collect() }
+    fn enc(&self, out: &mut Vec<String>) { out.push(format!("L{}", self.len())); for x in self { x.enc(out); } }
+    fn dec<'a, I: Iterator<Item = &'a str>>(it: &mut I) -> Self { let n: usize = it.next().unwrap()[1..].parse().unwrap(); (0..n).map(|_| T::dec(it)).collect() }
+}
+impl<T: Canon + Ord> Canon for BTreeSet<T> {
+    fn ty(out: &mut Vec<String>) { out.push("set".into()); T::ty(out); }
+    fn gen(r: &mut Rng, d: usize) -> Self { let n = gen_len(r, d); (0..n).map(|_| T::gen(r, d.saturating_sub(1))).collect() }
+    fn enc(&self, out: &mut Vec<String>) { out.push(format!("L{}", self.len())); for x in self { x.enc(out); } }
+    fn dec<'a, I: Iterator<Item = &'a str>>(it: &mut I) -> Self { let n: usize = it.next().unwrap()[1..].parse().unwrap(); (0..n).map(|_| T::dec(it)).collect() }
+}
+impl<K: Canon + Ord, V: Canon> Canon for BTreeMap<K, V> {
+    fn ty(out: &mut Vec<String>) { out.push("map".into()); K::ty(out); V::ty(out); }
+    fn gen(r: &mut Rng, d: usize) -> Self { let n = gen_len(r, d); (0..n).map(|_| (K::gen(r, 0), V::gen(r, d.saturating_sub(1)))).collect() }
+    fn enc(&self, out: &mut Vec<String>) { out.push(format!("M{}", self.len())); for (k, v) in self { k.enc(out); v.enc(out); } }
+    fn dec<'a, I: Iterator<Item = &'a str>>(it: &mut I) -> Self { let n: usize = it.next().unwrap()[1..].parse().unwrap(); (0..n).map(|_| { let k = K::dec(it); let v = V::dec(it); (k, v) }).collect() }
+}
+macro_rules! canon_tuple {
+    ($n:expr; $($T:ident $i:tt),*) => {
+        impl<$($T: Canon),*> Canon for ($($T,)*) {
+            fn ty(out: &mut Vec<String>) { out.push("tup".into()); out.push($n.to_string()); $($T::ty(out);)* }
+            fn gen(r: &mut Rng, d: usize) -> Self { ($($T::gen(r, d.saturating_sub(1)),)*) }
+            fn enc(&self, out: &mut Vec<String>) { out.push(format!("L{}", $n)); $(self.$i.enc(out);)* }
+            fn dec<'a, I: Iterator<Item = &'a str>>(it: &mut I) -> Self { it.next(); ($($T::dec(it),)*) }
+        }
+    };
+}
+canon_tuple!(1; A 0);
+canon_tuple!(2; A 0, B 1);
+canon_tuple!(3; A 0, B 1, C 2);
+
+fn hexname(s: &str) -> String { hex(s.as_bytes()) }
+
+macro_rules! canon_struct {
+    ($S:ident { $($f:ident : $T:ty),* }) => {
+        impl Canon for $S {
+            fn ty(out: &mut Vec<String>) { let names: [&str; 0 $(+ { let _ = stringify!($f); 1 })*] = [$(stringify!($f)),*]; let n = names.len(); out.push("struct".into()); out.push(n.to_string()); $(out.push(hexname(stringify!($f))); <$T>::ty(out);)* }
+            #[allow(unused_variables)]
+            fn gen(r: &mut Rng, d: usize) -> Self { $S { $($f: <$T>::gen(r, d.saturating_sub(1))),* } }
+            fn enc(&self, out: &mut Vec<String>) { let names: [&str; 0 $(+ { let _ = stringify!($f); 1 })*] = [$(stringify!($f)),*]; let n = names.len(); out.push(format!("L{}", n)); $(self.$f.enc(out);)* }
+            #[allow(unused_variables)]
+            fn dec<'a, I: Iterator<Item = &'a str>>(it: &mut I) -> Self { it.next(); $S { $($f: <$T>::dec(it)),* } }
+        }
+    };
+}
+
+#[derive(Serialize, Deserialize, Debug, PartialEq)]
+pub struct UnitS;
+impl Canon for UnitS {
+    fn ty(out: &mut Vec<String>) { out.push("ustruct".into()); }
+    fn gen(_r: &mut Rng, _d: usize) -> Self { UnitS }
+    fn enc(&self, out: &mut Vec<String>) { out.push("U".into()); }
+    fn dec<'a, I: Iterator<Item = &'a str>>(it: &mut I) -> Self { it.next(); UnitS }
+}
+#[derive(Serialize, Deserialize, Debug, PartialEq)]
+pub struct NtU32(u32);
+#[derive(Serialize, Deserialize, Debug, PartialEq)]
+pub struct NtVec(Vec<u8>);
+#[derive(Serialize, Deserialize, Debug, PartialEq)]
+pub struct NtOpt(Option<u8>);
+macro_rules! canon_newtype {
+    ($S:ident, $T:ty) => {
+        impl Canon for $S {
+            fn ty(out: &mut Vec<String>) { out.push("nstruct".into()); <$T>::ty(out); }
+            fn gen(r: &mut Rng, d: usize) -> Self { $S(<$T>::gen(r, d)) }
+            fn enc(&self, out: &mut Vec<String>) { self.0.enc(out); }
+            fn dec<'a, I: Iterator<Item = &'a str>>(it: &mut I) -> Self { $S(<$T>::dec(it)) }
+        }
+    };
+}
+canon_newtype!(NtU32, u32);
+canon_newtype!(NtVec, Vec<u8>);
+canon_newtype!(NtOpt, Option<u8>);
+
+#[derive(Serialize, Deserialize, Debug, PartialEq)]
+pub struct Ts2(u8, String);
+impl Canon for Ts2 {
+    fn ty(out: &mut Vec<String>) { out.push("tstruct".into()); out.push("2".into()); u8::ty(out); String::ty(out); }
+    fn gen(r: &mut Rng, d: usize) -> Self { Ts2(u8::gen(r, d), String::gen(r, d)) }
+    fn enc(&self, out: &mut Vec<String>) { out.push("L2".into()); self.0.enc(out); self.1.enc(out); }
+    fn dec<'a, I: Iterator<Item = &'a str>>(it: &mut I) -> Self { it.next(); let a = u8::dec(it); let b = String::dec(it); Ts2(a, b) }
+}
+#[derive(Serialize, Deserialize, Debug, PartialEq)]
+pub struct Ts0();
+impl Canon for Ts0 {
+    fn ty(out: &mut Vec<String>) { out.push("tstruct".into()); out.push("0".into()); }
+    fn gen(_r: &mut Rng, _d: usize) -> Self { Ts0() }
+    fn enc(&self, out: &mut Vec<String>) { out.push("L0".into()); }
+    fn dec<'a, I: Iterator<Item = &'a str>>(it: &mut I) -> Self { it.next(); Ts0() }
+}
+
+#[derive(Serialize, Deserialize, Debug, PartialEq)]
+pub struct S1 { a: u8, b: String }
+canon_struct!(S1 { a: u8, b: String });
+#[derive(Serialize, Deserialize, Debug, PartialEq)]
+pub struct S2 { u: (), o: Option<u8>, v: Vec<u8>, oo: Option<Option<bool>> }
+canon_struct!(S2 { u: (), o: Option<u8>, v: Vec<u8>, oo: Option<Option<bool>> });
+#[derive(Serialize, Deserialize, Debug, PartialEq)]
+pub struct S0 {}
+canon_struct!(S0 {});
+#[derive(Serialize, Deserialize, Debug, PartialEq)]
+#[serde(rename_all = "kebab-case")]
+pub enum E1 { Alpha, Beta(u32), Gamma(u8, String), Delta { x: bool, y: Option<u8> } }
+impl Canon for E1 {
+    fn ty(out: &mut Vec<String>) {
+        out.push("enum".into()); out.push("4".into());
+        out.push(hexname("alpha")); out.push("vu".into());
+        out.push(hexname("beta")); out.push("vn".into()); u32::ty(out);
+        out.push(hexname("gamma")); out.push("vt".into()); out.push("2".into()); u8::ty(out); String::ty(out);
+        out.push(hexname("delta")); out.push("vs".into()); out.push("2".into()); out.push(hexname("x")); bool::ty(out); out.push(hexname("y")); <Option<u8>>::ty(out);
+    }
+    fn gen(r: &mut Rng, d: usize) -> Self {
+        match r.below(4) { 0 => E1::Alpha, 1 => E1::Beta(u32::gen(r, d)), 2 => E1::Gamma(u8::gen(r, d), String::gen(r, d)), _ => E1::Delta { x: bool::gen(r, d), y: Option::<u8>::gen(r, d) } }
+    }
+    fn enc(&self, out: &mut Vec<String>) {
+        match self {
+            E1::Alpha => { out.push("E0".into()); out.push("U".into()); }
+            E1::Beta(x) => { out.push("E1".into()); x.enc(out); }
+            E1::Gamma(a, b) => { out.push("E2".into()); out.push("L2".into()); a.enc(out); b.enc(out); }
+            E1::Delta { x, y } => { out.push("E3".into()); out.push("L2".into()); x.enc(out); y.enc(out); }
+        }
+    }
+    fn dec<'a, I: Iterator<Item = &'a str>>(it: &mut I) -> Self {
+        match it.next().unwrap() {
+            "E0" => { it.next(); E1::Alpha }
+            "E1" => E1::Beta(u32::dec(it)),
+            "E2" => { it.next(); let a = u8::dec(it); let b = String::dec(it); E1::Gamma(a, b) }
+            _ => { it.next(); let x = bool::dec(it); let y = Option::<u8>::dec(it); E1::Delta { x, y } }
+        }
+    }
+}
+#[derive(Serialize, Deserialize, Debug, PartialEq)]
+pub enum E2 { N(Vec<u8>), T(u8, u8), O(Option<u8>), U(()), ET(), ES {}, NN(E1), Plain, OV(Option<Vec<u8>>) }
+impl Canon for E2 {
+    fn ty(out: &mut Vec<String>) {
+        out.push("enum".into()); out.push("9".into());
+        out.push(hexname("N")); out.push("vn".into()); <Vec<u8>>::ty(out);
+        out.push(hexname("T")); out.push("vt".into()); out.push("2".into()); u8::ty(out); u8::ty(out);
+        out.push(hexname("O")); out.push("vn".into()); <Option<u8>>::ty(out);
+        out.push(hexname("U")); out.push("vn".into()); <()>::ty(out);
+        out.push(hexname("ET")); out.push("vt".into()); out.push("0".into());
+        out.push(hexname("ES")); out.push("vs".into()); out.push("0".into());
+        out.push(hexname("NN")); out.push("vn".into()); E1::ty(out);
+        out.push(hexname("Plain")); out.push("vu".into());
+        out.push(hexname("OV")); out.push("vn".into()); <Option<Vec<u8>>>::ty(out);
+    }
+    fn gen(r: &mut Rng, d: usize) -> Self {
+        match r.below(9) { 0 => E2::N(Vec::gen(r, d)), 1 => E2::T(u8::gen(r, d), u8::gen(r, d)), 2 => E2::O(Option::gen(r, d)), 3 => E2::U(()), 4 => E2::ET(), 5 => E2::ES {}, 6 => E2::NN(E1::gen(r, d)), 7 => E2::Plain, _ => E2::OV(Option::gen(r, d)) }
+    }
+    fn enc(&self, out: &mut Vec<String>) {
+        match self {
+            E2::N(x) => { out.push("E0".into()); x.enc(out); }
+            E2::T(a, b) => { out.push("E1".into()); out.push("L2".into()); a.enc(out); b.enc(out); }
+            E2::O(x) => { out.push("E2".into()); x.enc(out); }
+            E2::U(x) => { out.push("E3".into()); x.enc(out); }
+            E2::ET() => { out.push("E4".into()); out.push("L0".into()); }
+            E2::ES {} => { out.push("E5".into()); out.push("L0".into()); }
+            E2::NN(x) => { out.push("E6".into()); x.enc(out); }
+            E2::Plain => { out.push("E7".into()); out.push("U".into()); }
+            E2::OV(x) => { out.push("E8".into()); x.enc(out); }
+        }
+    }
+    fn dec<'a, I: Iterator<Item = &'a str>>(it: &mut I) -> Self {
+        match it.next().unwrap() {
+            "E0" => E2::N(Vec::dec(it)),
+            "E1" => { it.next(); let a = u8::dec(it); let b = u8::dec(it); E2::T(a, b) }
+            "E2" => E2::O(Option::dec(it)),
+            "E3" => { <()>::dec(it); E2::U(()) }
+            "E4" => { it.next(); E2::ET() }
+            "E5" => { it.next(); E2::ES {} }
+            "E6" => E2::NN(E1::dec(it)),
+            "E7" => { it.next(); E2::Plain }
+            _ => E2::OV(Option::dec(it)),
+        }
+    }
+}
+#[derive(Serialize, Deserialize, Debug, PartialEq)]
+pub struct S3 { inner: S1, e: E1, m: BTreeMap<String, E1>, t: (u8, Option<()>) }
+canon_struct!(S3 { inner: S1, e: E1, m: BTreeMap<String, E1>, t: (u8, Option<()>) });
+
+pub struct Entry {
+    pub name: &'static str,
+    pub ty: fn() -> String,
+    pub gen: fn(&mut Rng) -> String,
+    pub ser: fn(&[&str]) -> (String, Vec<String>),
+    pub de: fn(&Value) -> (String, Vec<String>),
+}
+
+fn ty_of<T: Canon>() -> String { let mut o = Vec::new(); T::ty(&mut o); o.join(" ") }
+fn gen_of<T: Canon>(r: &mut Rng) -> String { let x = T::gen(r, 3); let mut o = Vec::new(); x.enc(&mut o); o.join(" ") }
+fn enc_of<T: Canon>(x: &T) -> String { let mut o = Vec::new(); x.enc(&mut o); o.join(" ") }
+
+fn data_floats_close(a: &str, b: &str) -> bool {
+    // same encoding up to float tokens, which must be acceptable readings of each other
+    let (ta, tb): (Vec<&str>, Vec<&str>) = (a.split_whitespace().collect(), b.split_whitespace().collect());
+    ta.len() == tb.len() && ta.iter().zip(tb.iter()).all(|(x, y)| {
+        if x == y { return true; }
+        if x.starts_with('D') && y.starts_with('D') && x.len() == 17 && y.len() == 17 {
+            let fx = f64::from_bits(u64::from_str_radix(&x[1..], 16).unwrap());
+            let fy = f64::from_bits(u64::from_str_radix(&y[1..], 16).unwrap());
+            return crate::oracle::float_ok(fx, fy, true) || ((fx as f32) == (fy as f32));
+        }
+        false
+    })
+}
+
+fn ser_of<T: Canon>(data: &[&str]) -> (String, Vec<String>) {
+    let mut msgs = Vec::new();
+    let x = T::dec(&mut data.iter().copied());
+    let want = enc_of(&x);
+    let r = catch_unwind(AssertUnwindSafe(|| serde_lexpr::to_value(&x)));
+    let res = match r {
+        Ok(Ok(v)) => {
+            // C04 value path
+            match catch_unwind(AssertUnwindSafe(|| serde_lexpr::from_value::<T>(&v))) {
+                Ok(Ok(y)) => { let got = enc_of(&y); if got != want { msgs.push(format!("FAIL C04 value round trip changed the data: {} -> {} -> {}", want, enc_value(&v), got)); } }
+                Ok(Err(e)) => msgs.push(format!("FAIL C04 value round trip: own serialization {} rejected: {}", enc_value(&v), e)),
+                Err(_) => msgs.push("FAIL C18 from_value panicked on serializer output".into()),
+            }
+            // C04 text path (finite floats only)
+            if !want.contains("D7ff") && !want.contains("Dfff") && !want.contains("Dnan") {
+                match serde_lexpr::to_string(&x) {
+                    Ok(s) => match catch_unwind(AssertUnwindSafe(|| serde_lexpr::from_str::<T>(&s))) {
+                        Ok(Ok(y)) => { let got = enc_of(&y); if !data_floats_close(&want, &got) { msgs.push(format!("FAIL C04 text round trip changed the data: {} -> {:?} -> {}", want, s, got)); } }
+                        Ok(Err(e)) => msgs.push(format!("FAIL C04 text round trip: own text {:?} rejected: {}", s, e)),
+                        Err(_) => msgs.push("FAIL C18 from_str panicked".into()),
+                    },
+                    Err(e) => msgs.push(format!("FAIL C04 to_string failed: {}", e)),
+                }
+            }
+            format!("ok {}", enc_value(&v))
+        }
+        Ok(Err(_)) => "err".into(),
+        Err(_) => "panic".into(),
+    };
+    (res, msgs)
+}
+
+fn de_of<T: Canon>(v: &Value) -> (String, Vec<String>) {
+    let mut msgs = Vec::new();
+    let r = catch_unwind(AssertUnwindSafe(|| serde_lexpr::from_value::<T>(v)));
+    let res = match r {
+        Ok(Ok(x)) => {
+            let got = enc_of(&x);
+            // C18: accepted encodings are normalised, not misread
+            match serde_lexpr::to_value(&x) {
+                Ok(v2) => match catch_unwind(AssertUnwindSafe(|| serde_lexpr::from_value::<T>(&v2))) {
+                    Ok(Ok(y)) => if enc_of(&y) != got { msgs.push(format!("FAIL C18 re-serialising and deserialising gives a different value: {} vs {}", got, enc_of(&y))); },
+                    Ok(Err(e)) => msgs.push(format!("FAIL C18 accepted value {} does not deserialize from its own serialization {}: {}", got, enc_value(&v2), e)),
+                    Err(_) => msgs.push("FAIL C18 from_value panicked on re-serialization".into()),
+                },
+                Err(e) => msgs.push(format!("FAIL C18 to_value failed on a deserialized value: {}", e)),
+            }
+            format!("ok {}", got)
+        }
+        Ok(Err(e)) => {
+            let cat = format!("{:?}", e.classify());
+            if cat != "Data" { msgs.push(format!("FAIL C18 from_value error of category {} (expected Data): {}", cat, e)); }
+            format!("err {}", cat)
+        }
+        Err(_) => { msgs.push("FAIL C18 from_value panicked".into()); "panic".into() }
+    };
+    (res, msgs)
+}
+
+macro_rules! reg {
+    ($name:expr, $T:ty) => { Entry { name: $name, ty: ty_of::<$T>, gen: gen_of::<$T>, ser: ser_of::<$T>, de: de_of::<$T> } };
+}
+
+pub fn registry() -> Vec<Entry> {
+    vec![
+        reg!("i8", i8), reg!("i16", i16), reg!("i32", i32), reg!("i64", i64), reg!("u8", u8), reg!("u16", u16), reg!("u32", u32), reg!("u64", u64),
+        reg!("f32", f32), reg!("f64", f64), reg!("bool", bool), reg!("char", char), reg!("string", String), reg!("bytebuf", ByteBuf), reg!("unit", ()),
+        reg!("opt_u8", Option<u8>), reg!("opt_opt_u8", Option<Option<u8>>), reg!("opt_unit", Option<()>), reg!("opt_vec", Option<Vec<u8>>), reg!("vec_opt", Vec<Option<u8>>),
+        reg!("opt_string", Option<String>), reg!("vec_u8", Vec<u8>), reg!("vec_string", Vec<String>), reg!("vec_vec_i32", Vec<Vec<i32>>), reg!("set_u32", BTreeSet<u32>),
+        reg!("set_string", BTreeSet<String>), reg!("tup1", (u8,)), reg!("tup2", (u8, String)), reg!("tup_nested", (i32, (bool, char))), reg!("tup_unit", ((), u8)),
+        reg!("tup3", (u64, f64, Option<i8>)), reg!("map_string_u32", BTreeMap<String, u32>), reg!("map_u8_string", BTreeMap<u8, String>), reg!("map_char_i64", BTreeMap<char, i64>),
+        reg!("map_string_vecopt", BTreeMap<String, Vec<Option<u8>>>), reg!("unit_struct", UnitS), reg!("nt_u32", NtU32), reg!("nt_vec", NtVec), reg!("nt_opt", NtOpt),
+        reg!("ts2", Ts2), reg!("ts0", Ts0), reg!("s0", S0), reg!("s1", S1), reg!("s2", S2), reg!("s3", S3), reg!("e1", E1), reg!("e2", E2),
+        reg!("vec_e2", Vec<E2>), reg!("map_string_s2", BTreeMap<String, S2>), reg!("opt_e1", Option<E1>), reg!("vec_tup", Vec<(u8, E1)>),
+    ]
+}
+
+fn split_at_sep<'a>(t: &'a [&'a str]) -> (&'a [&'a str], &'a [&'a str]) {
+    let i = t.iter().position(|x| *x == ";;").unwrap();
+    (&t[..i], &t[i + 1..])
+}
+
+thread_local! { static LAST_MSGS: std::cell::RefCell<Vec<String>> = std::cell::RefCell::new(Vec::new()); }
+
+/// `ser <name> <Ty...> ;; <Data...>`   /   `de <name> <Ty...> ;; <Value...>`
+pub fn exec_serde(t: &[&str]) -> String {
+    let reg = registry();
+    let e = match reg.iter().find(|e| e.name == t[1]) { Some(e) => e, None => return "unknown-type".into() };
+    let (_, payload) = split_at_sep(&t[2..]);
+    let (res, msgs) = if t[0] == "ser" { (e.ser)(payload) } else { let v = dec_value(&mut payload.iter().copied()); (e.de)(&v) };
+    LAST_MSGS.with(|m| *m.borrow_mut() = msgs);
+    res
+}
+
+pub fn check(_t: &[&str], _res: &str, m: &mut Vec<String>) {
+    LAST_MSGS.with(|l| m.extend(l.borrow_mut().drain(..)));
+}
+
+fn to_list_or_vector(v: &Value, r: &mut Rng) -> Value {
+    // alternative encodings of a serialized value (C14 acceptance clause, C18)
+    match v {
+        Value::Vector(xs) => match r.below(3) {
+            0 => Value::list(xs.to_vec()),
+            1 if !xs.is_empty() => Value::append(xs[..xs.len() - 1].to_vec(), xs[xs.len() - 1].clone()),
+            _ => Value::Vector(xs.iter().map(|x| to_list_or_vector(x, r)).collect::<Vec<_>>().into()),
+        },
+        Value::Cons(c) => {
+            let (xs, tail) = c.to_vec();
+            match r.below(6) {
+                0 if tail.is_null() => Value::Vector(xs.into()),
+                1 => Value::append(xs, Value::from(7)),
+                2 => Value::append(xs, Value::Nil),
+                3 => { let mut ys = xs.clone(); if !ys.is_empty() { let i = r.below(ys.len()); ys.remove(i); } Value::append(ys, tail) }
+                4 => { let mut ys = xs.clone(); let i = r.below(ys.len() + 1); let extra = if r.chance(1, 2) && !ys.is_empty() { ys[r.below(ys.len())].clone() } else { crate::gen::gen_value(r, &crate::gen::VCFG_ANY, 1) }; ys.insert(i, extra); Value::append(ys, tail) }
+                _ => Value::append(xs.iter().map(|x| if r.chance(1, 3) { to_list_or_vector(x, r) } else { x.clone() }).collect::<Vec<_>>(), tail),
+            }
+        }
+        Value::Symbol(s) => match r.below(4) { 0 => Value::string(&**s), 1 => Value::keyword(&**s), 2 => Value::cons(Value::symbol(&**s), Value::Null), _ => Value::symbol(format!("{}x", s)) },
+        Value::String(s) => if r.chance(1, 2) { Value::symbol(&**s) } else { Value::Nil },
+        Value::Null => match r.below(3) { 0 => Value::Nil, 1 => Value::Vector(vec![].into()), _ => Value::Bool(false) },
+        Value::Number(n) => match r.below(4) { 0 => Value::from(n.as_f64().unwrap_or(0.0)), 1 => Value::from(-1), 2 => Value::from(u64::MAX), _ => Value::from(n.as_f64().unwrap_or(0.0) + 0.5) },
+        other => other.clone(),
+    }
+}
+
+pub fn generate(family: &str, r: &mut Rng, count: usize, emit: &mut dyn FnMut(String)) {
+    let reg = registry();
+    for i in 0..count {
+        let e = &reg[if i < reg.len() { i } else { r.below(reg.len()) }];
+        let ty = (e.ty)();
+        let data = (e.gen)(r);
+        if family == "serde" {
+            emit(format!("ser {} {} ;; {}", e.name, ty, data));
+        }
+        // well-shaped and alternative encodings for deserialization
+        let toks: Vec<&str> = data.split_whitespace().collect();
+        let (res, _) = (e.ser)(&toks);
+        if let Some(venc) = res.strip_prefix("ok ") {
+            let v = dec_value(&mut venc.split_whitespace());
+            if family == "serde" {
+                emit(format!("de {} {} ;; {}", e.name, ty, enc_value_text(&v)));
+                let alt = to_list_or_vector(&v, r);
+                emit(format!("de {} {} ;; {}", e.name, ty, enc_value_text(&alt)));
+            } else {
+                let mut alt = to_list_or_vector(&v, r);
+                if r.chance(1, 2) { alt = to_list_or_vector(&alt, r); }
+                emit(format!("de {} {} ;; {}", e.name, ty, enc_value_text(&alt)));
+                // a value serialized for another type
+                let other = &reg[r.below(reg.len())];
+                let d2 = (other.gen)(r);
+                let t2: Vec<&str> = d2.split_whitespace().collect();
+                if let Some(v2) = (other.ser)(&t2).0.strip_prefix("ok ") {
+                    emit(format!("de {} {} ;; {}", e.name, ty, v2));
+                }
+                // an arbitrary value
+                let any = crate::gen::gen_value(r, &crate::gen::VCFG_ANY, 2);
+                emit(format!("de {} {} ;; {}", e.name, ty, enc_value_text(&any)));
+            }
+        }
+    }
+}
